@@ -758,6 +758,19 @@ impl Monitor for C13 {
                 }
             }
         }
+        for (p, u, n) in nss.iter().take(5) {
+            match guard(|| xot.string_value(*n)) {
+                Ok(s) if s == *u => ctx.count("string_value.namespace_nodes"),
+                other => {
+                    ctx.violation(
+                        "string_value of a namespace node is not its URI",
+                        "C13/string_value/namespace".to_string(),
+                        J::obj().set("declaration", J::s(format!("{}={:?}", p, u))).set("got", J::s(format!("{:?}", other.map_err(|p| p.short())))),
+                    );
+                    return;
+                }
+            }
+        }
         ctx.sample(|| J::obj().set("base", base.to_json()).set("mutants", J::Arr(trees.iter().skip(2).map(|(t, f)| J::obj().set("feature", J::s(*f)).set("tree", t.to_json())).collect())));
     }
 }
